@@ -13,7 +13,8 @@ unordered pair) is decidable and holds for every view built through `add_node`/`
 * two hops: `two_hop_exact` (for the repaired idiom), `two_hop_counterexample` + `two_hop_partial` (code as written —
   known finding), `two_hop_total`, `two_hop_nodup`, `second_components_spec`
 * shortest path: `shortest_path_sound`, `shortest_path_empty_iff_unreachable`, `shortest_path_minimal`, `shortest_path_total`
-* path with hops: `hops_sound`, `hops_minimal`, `hops_empty_iff_none`, `hops_total`
+* path with hops: `hops_sound`, `hops_minimal`, `hops_empty_iff_none`, `hops_total`,
+  `hops_list_semantics` (repeats / order of the hop list are irrelevant), `hops_foreign_hop_empty`
 -/
 namespace FimVerif.C06
 open FimVerif.Query FimVerif.Gen
@@ -279,6 +280,37 @@ theorem hops_empty_iff_none {g : TGraph} {a z : String} {hops : List String} {cu
       have := hp.1.1
       rw [he] at this; simp at this
     · intro hno; exact absurd ⟨_, hp⟩ hno
+
+/-- **hops_list_semantics.**  `hops` is an arbitrary *list* (no `Nodup` hypothesis anywhere above: `HopPath` asks
+    `∀ h ∈ hops, h ∈ p`).  Repeating a hop, listing the hops in path order, in reverse or shuffled, or listing the end
+    nodes themselves does not change the answer: it depends only on which ids are listed. -/
+theorem hops_list_semantics {g : TGraph} {a z : String} {hops hops' : List String} (hsame : ∀ x, x ∈ hops ↔ x ∈ hops')
+    (cutoff : Nat) : getNodesOnPathWithHops g a z hops cutoff = getNodesOnPathWithHops g a z hops' cutoff := by
+  unfold getNodesOnPathWithHops
+  rw [pathWithHops_congr hsame]
+
+/-- instances: a repeated hop, and the reversed list -/
+example (g : TGraph) (a z c : String) (k : Nat) :
+    getNodesOnPathWithHops g a z [c, c] k = getNodesOnPathWithHops g a z [c] k :=
+  hops_list_semantics (by simp) k
+
+example (g : TGraph) (a z : String) (hs : List String) (k : Nat) :
+    getNodesOnPathWithHops g a z hs.reverse k = getNodesOnPathWithHops g a z hs k :=
+  hops_list_semantics (by simp) k
+
+/-- **hops_foreign_hop_empty.**  A hop that is not a node of *this* graph (unknown, or a node of another graph in the
+    store) makes the answer the empty list — never an error, never a path. -/
+theorem hops_foreign_hop_empty {g : TGraph} (hw : wf g = true) {a z : String} {hops : List String} {cutoff : Nat}
+    {p : List String} (h : getNodesOnPathWithHops g a z hops cutoff = .ok p) {x : String} (hx : x ∈ hops)
+    (hxg : x ∉ verts g) : p = [] := by
+  rw [hops_empty_iff_none h]
+  rintro ⟨q, ⟨hh, _, hc⟩, _, hhops, _⟩
+  exact hxg (chain_nodes_in_verts (wf_iff.1 hw).2.1 q a hh (hops_ok h).1 hc x (hhops x hx))
+
+/-- the empty hop list asks for nothing: the answer is a shortest loop-free path within the cut-off -/
+example (g : TGraph) (a z : String) (k : Nat) (p : List String) :
+    HopPath g a z [] k p ↔ IsPath g none a z p ∧ LoopFree g p ∧ p.length ≤ k + 1 := by
+  simp [HopPath]
 
 /-- the query answers for end nodes of the graph -/
 theorem hops_total {g : TGraph} {a z : String} (ha : a ∈ verts g) (hz : z ∈ verts g) (hops : List String) (cutoff : Nat) :
